@@ -3,7 +3,7 @@ import copy
 
 from hypothesis import strategies as st
 
-from .. import cli as CLI, events as EV, kmodel, scenario as SC, strategies as S
+from .. import cli as CLI, events as EV, files, kmodel, scenario as SC, strategies as S
 from ..core import Violation, guard
 from ..io_util import BudgetReader
 
@@ -19,7 +19,8 @@ RULE = ('histories on ONE PyKdebugParser object: 2..8 steps, each = (filter sett
         'four filter attributes still hold what the history last set; after the history an unfiltered request on every dump '
         'equals the baseline, and a canonical dump decoded at process start reads the same from a fresh parser before and '
         'after every history (state kept outside the objects); callstack_history: 2..4 callstack requests over one or two '
-        'dumps on one object == fresh parser each time; cli: `traces --tid --process -cf -sf` prints the lines of the unfiltered '
+        'dumps on one object == fresh parser each time; v3: the same streams in a version-3 container with log blocks, filtered request == predicate; '
+        'huge_window: an open() holding 18000+ foreign records before its lookup reads the same filtered and unfiltered; cli: `traces --tid --process -cf -sf` prints the lines of the unfiltered '
         'command at the positions the predicate selects, `callstacks --tid --process` == the library listing with those filters. Non-trivial: a class or subclass filter is active '
         'and the same request occurs at least twice in the history; distinct by history digest.')
 ASSUMPTIONS = ['subclass filters are BSD subclasses only (statement); callstack requests are compared for repeatability, '
@@ -275,7 +276,53 @@ def prop_cli(ctx, case):
     ctx.note([blob, o], nontrivial=active and 0 < len(keep) < len(base), classes=['cli', *(['cli-callstacks'] if cs else [])])
 
 
-PROPS = {'history': prop_history, 'callstack_history': prop_callstack_history, 'cli': prop_cli}
+def prop_v3(ctx, case):
+    """the same streams inside a version-3 container that also carries log records: a filtered trace request reads the
+    whole dump (events, then logs) and yields exactly the matching traces"""
+    _, evs, tm = build_file(case['file'])
+    recs = [kmodel.ev_record((1001 + 7 * k, tid, (EV.eid(code) & ~3) | q, data)) for k, (tid, code, q, data) in enumerate(evs)]
+    v3 = dict(case['v3'])
+    cut = case['cut'] % (len(recs) + 1)
+    v3['chunks'] = [recs[:cut], recs[cut:]]
+    v3['tm'] = [list(t) + [b''] for t in tm]
+    blob = files.build_v3(v3)
+    base = guard(baseline, blob)
+    cfg = resolve_cfg({'cfg': case['cfg']}, tm, case['file']['dynamic'])
+    p = fresh()
+    apply_cfg(p, cfg)
+    got = guard(lambda: [(t.ktraces[0].timestamp, t.ktraces[0].tid, str(t)) for t in p.traces(BudgetReader(blob))])
+    exp = [(b['ts'], b['tid'], b['text']) for b in base if pred(b, cfg)]
+    if got != exp:
+        raise Violation('filtered-traces:v3', describe(f'version-3 dump with {len(files.v3_all_logs(v3))} log records, cfg {cfg}', got, exp, None))
+    gotl = guard(lambda: list(p.formatted_traces(BudgetReader(blob))))
+    expl = [b['line'] for b in base if pred(b, cfg)]
+    if gotl != expl:
+        raise Violation('filtered-lines:v3', describe(f'version-3 dump, cfg {cfg}', gotl, expl, None))
+    ctx.note([blob, repr(cfg)], nontrivial=bool(files.v3_all_logs(v3)) and (cfg['tid'] is not None or cfg['process'] is not None or bool(cfg['classes'] or cfg['subclasses'])),
+             classes=['v3', 'with-logs' if files.v3_all_logs(v3) else 'no-logs', *(['tid-filter'] if cfg['tid'] is not None else [])])
+
+
+def prop_huge_window(ctx, case):
+    """one call that stays open while its thread logs tens of thousands of records of other classes, then looks its path
+    up: the filtered and the unfiltered request show the same call"""
+    n, seed = case['n'], case['seed']
+    tid = SC.PROGRAM_TIDS[0]
+    path = b'/etc/' + b'h' * (10 + seed % 40)
+    evs = [SC.ev(tid, 'BSC_open', 1, seed, 0)] + [SC.junk(tid, seed + j, j % 5) for j in range(n)] + EV.lookup_events(tid, 9, path) + [SC.ev(tid, 'BSC_open', 2, seed, 1)]
+    evs = [e for e in evs if not (isinstance(e[1], str) and e[1].startswith('BSC_') and e[1] != 'BSC_open')]
+    recs = [kmodel.ev_record((1001 + 7 * k, t, (EV.eid(c) & ~3) | q, d)) for k, (t, c, q, d) in enumerate(evs)]
+    blob = kmodel.v2_file([(tid, 100, b'P0_main')], 0, recs)
+    p = fresh()
+    unfiltered = guard(lambda: [str(t) for t in p.traces(BudgetReader(blob)) if t.ktraces[0].eventid == EV.eid('BSC_open')])
+    q = fresh()
+    q.filter_class = [4]
+    filtered = guard(lambda: [str(t) for t in q.traces(BudgetReader(blob)) if t.ktraces[0].eventid == EV.eid('BSC_open')])
+    if unfiltered != filtered or len(filtered) != 1 or path.decode() not in filtered[0]:
+        raise Violation('filtered-traces:huge-window', f'open() with {n} records of other classes inside its window: unfiltered {unfiltered}, BSD-filtered {filtered}, path {path.decode()!r}')
+    ctx.note(['huge', n, seed], nontrivial=True, classes=[f'window-records:{n}'])
+
+
+PROPS = {'history': prop_history, 'callstack_history': prop_callstack_history, 'cli': prop_cli, 'v3': prop_v3, 'huge_window': prop_huge_window}
 
 
 def strategy():
@@ -323,6 +370,12 @@ def callstack_strategy():
 def run(ctx):
     ctx.run_given('callstack_history', callstack_strategy(), prop_callstack_history, ctx.n(300, 1500))
     ctx.run_given('history', strategy(), prop_history, ctx.n(500, 1800))
+    v3 = st.fixed_dictionaries({'file': strategy().map(lambda c: c['cli']['file']), 'cfg': strategy().map(lambda c: c['cli']['cfg']), 'cut': st.integers(0, 200),
+                                'v3': files.v3_spec(max_events=0, max_n=2, tids=SC.PROGRAM_TIDS[:3], records_strategy=st.just([]), log_copies=2, force_logs=True)})
+    ctx.run_given('v3', v3, prop_v3, ctx.n(80, 600))
+    if ctx.shard == 0:
+        ctx.run_enum('huge_window', [{'n': n, 'seed': ctx.seed * 13 + k} for k, n in enumerate([20000] if ctx.quick else [5000, 20000, 36000, 70000])], prop_huge_window,
+                     exhaustive_label='an open() window holding 20000 (thorough: up to 70000) records of other classes before its lookup')
     if ctx.failures:
         return          # the command line reads real files without a read budget: not on a tree that already fails
     ctx.run_given('cli', strategy().map(lambda c: c['cli']), prop_cli, ctx.n(80, 400))
